@@ -15,6 +15,8 @@ var commentForms = []string{
 	" paragraph one\n\n paragraph two",
 	"   leading and trailing blanks   ",
 	"\ttabbed\tcomment ",
+	" says \"quoted\" and \\backslash\\ and `backtick` and 100%d percent",
+	" unicode é→ and a very long line " + "word word word word word word word word word word word word word word word word word word word word",
 }
 
 type c10Base struct {
